@@ -382,6 +382,50 @@ def c14(hist, stats=None):
     return uniq
 
 
+def c14_new_jobs(hist, new_ids):
+    """re-run cases: what the predicates say, after the second run, about the
+    jobs that were added between the two runs (the others carry what the
+    first run left in them until they are started again)"""
+    out = []
+    run = hist.run
+    objs = run.ctx.objs
+    for nid in new_ids:
+        h = hist.nodes.get(nid)
+        tup = run.post.get(nid)
+        if h is None or tup is None:
+            continue
+        if tup[0] == 'error':
+            out.append(Violation('C14', 'predicate-raises', 'rerun',
+                                 "{}: {}".format(nid, tup[1])))
+            continue
+        idle, sched, running, done, exc, res = tup
+        fin = None
+        for _, _, k in h.exits:
+            if k in ('ret', 'exc', 'cexc', 'cret'):
+                fin = {'cexc': 'exc', 'cret': 'ret'}.get(k, k)
+                break
+
+        def bad(clause, msg):
+            out.append(Violation(
+                'C14', clause, 'rerun',
+                "{} (added before the second run): {} [idle={} scheduled={} "
+                "running={} done={} exc={!r} res={!r}]".format(
+                    nid, msg, idle, sched, running, done, exc, res)))
+        if bool(running) != bool(h.enters):
+            bad('running-vs-entered', "is_running()={} but body entered={}"
+                .format(running, bool(h.enters)))
+        if bool(done) != (fin is not None):
+            bad('done-vs-finished', "is_done()={} but the body {}".format(
+                done, "ended (%s)" % fin if fin else "never ended"))
+        if exc is not None and (fin != 'exc'
+                                or exc is not objs.get(nid, {}).get('exc')):
+            bad('exception-mismatch',
+                "raised_exception() is not what the body raised")
+        if fin == 'ret' and res is not objs.get(nid, {}).get('ret'):
+            bad('result-mismatch', "result() is not what the body returned")
+    return out
+
+
 # ----------------------------------------------------------------- C04
 
 CALIB = {}
